@@ -462,6 +462,8 @@ def run_shard(desc, acc):
             ident0 = {"base": desc["base"], "case": case}
             sig = gen.recipe_sig(rec)
             model._cv_ref = model.optimize()  # one fixed reference distribution for linear MOMA
+            if rng.random() < 0.5:  # addressed by id, not by position
+                model._cv_ref = gen.reordered_solution(model._cv_ref, rng)
             model._cv_rules = {d["id"]: gen._tuplify(d["gpr"]) for d in rec["rxns"]}
             for fname in rng.sample(sorted(F), 3):
                 run_function(acc, rng, model, fname, F, ident0, tmpdir, sig)
